@@ -167,7 +167,9 @@ class StaticFileHandler(RequestHandler):
 
         try:
             # Read file contents
-            content = file_path.read_text(encoding="utf-8")
+            # read_text() would translate CR and CRLF to LF (universal newlines)
+            # and so alter the file's content; decode the exact bytes instead
+            content = file_path.read_bytes().decode("utf-8")
 
             # Determine MIME type
             mime_type = self._get_mime_type(file_path)
